@@ -49,7 +49,7 @@ def run(ctx, shard):
         os_ = rng.choice(offs); o = Offset.from_seconds(os_)
         # choose the local day first so that range ends are hit, then derive the instant
         d = rng.choice([lo + 1, hi - 1, lo + 2, hi - 2, rng.randint(lo + 2, hi - 2), rng.randint(lo + 2, hi - 2)])
-        t = rng.choice([0, 1, DAY - 1, rng.randrange(DAY), rng.randrange(86400) * 10**9, rng.randrange(24) * 3600 * 10**9, (-os_ * 10**9) % DAY, (-os_ * 10**9 - 1) % DAY])
+        t = rng.choice([0, 1, DAY - 1, rng.randrange(DAY), rng.randrange(86400) * 10**9, rng.randrange(24) * 3600 * 10**9, (-os_ * 10**9) % DAY, (-os_ * 10**9 - 1) % DAY, (os_ * 10**9) % DAY, (os_ * 10**9 - 1) % DAY, (os_ * 10**9 + 1) % DAY])   # incl. local times whose instant is exactly a UTC midnight
         n = d * DAY + t - os_ * 10**9
         if not IMIN + 2 * DAY <= n <= IMAX - 2 * DAY:
             n = max(IMIN + 2 * DAY, min(IMAX - 2 * DAY, n))
@@ -67,6 +67,8 @@ def run(ctx, shard):
             V("construct-local", f"Instant({n}).with_offset({os_}s): local = day {gen.day_of(odt.date)} ns {odt.nanosecond_of_day}; instant+offset = day {ed} ns {et}", case, (gen.day_of(odt.date), odt.nanosecond_of_day), (ed, et))
         if ns_of(odt.to_instant()) != n:
             V("construct-instant", f"Instant({n}).with_offset({os_}s).to_instant() = {ns_of(odt.to_instant())}", case, ns_of(odt.to_instant()), n)
+        elif odt.to_instant() != i or hash(odt.to_instant()) != hash(i) or odt.to_instant() < i or i < odt.to_instant():
+            V("construct-instant-not-normal", f"Instant({n}).with_offset({os_}s).to_instant() holds {n} ns but does not compare/hash equal to the instant it came from", case)
         if odt.calendar is not cal or odt.offset != o:
             V("construct-calendar-offset", f"with_offset lost calendar or offset: {odt.calendar.id}, {odt.offset.seconds}", case)
         ldt = odt.local_date_time
@@ -169,6 +171,32 @@ def run(ctx, shard):
                     V("duration-arith-calendar-lost", f"{nm} {dn} ns returned a value in calendar {r.calendar.id} (was {cid})", c3, r.calendar.id, cid)
                 elif (gen.day_of(r.date), r.nanosecond_of_day) != divmod(Le, DAY):
                     V(f"duration-{nm}-local", f"{nm}: local {(gen.day_of(r.date), r.nanosecond_of_day)} != instant+offset {divmod(Le, DAY)}", c3)
+        # the sum's instant leaves the supported range although its local date-time would still be a valid date: must raise, never return
+        if it % 4 == 0:
+            for edge, sgn in ((IMAX, 1), (IMIN, -1)):
+                oe = -sgn * rng.choice([3600, 18000, 64800, 43200, rng.randint(1, 64800)])      # offset pointing inwards, so the local value stays in range longest
+                back = rng.choice([1, 3600 * 10**9, 10 * 3600 * 10**9, rng.randint(1, 17 * 3600 * 10**9)])
+                nb = edge - sgn * back
+                if not (lo <= (nb + oe * 10**9) // DAY <= hi): continue
+                try:
+                    base = ins(nb).with_offset(Offset.from_seconds(oe), cal)
+                except Exception as ex:  # noqa: BLE001
+                    ctx.exc(ex); continue
+                for over in (1, 100, 10**9, rng.randint(1, abs(oe) * 10**9)):
+                    dn = sgn * (back + over)                                                      # instant passes the edge by `over`
+                    Le = nb + dn + oe * 10**9
+                    if not (lo <= Le // DAY <= hi and over <= abs(oe) * 10**9): continue         # local result still a valid date of this calendar
+                    c5 = {"kind": "odt-edge", "n": nb, "off": oe, "dur": dn}
+                    for nm, fn in (("+", lambda: base + Duration.from_nanoseconds(dn)), ("-", lambda: base - Duration.from_nanoseconds(-dn)), ("plus_nanoseconds", lambda: base.plus_nanoseconds(dn)),
+                                   ("plus", lambda: base.plus(Duration.from_nanoseconds(dn)))):
+                        ctx.ev(); ctx.count("duration_arith"); ctx.key(("dur-edge", cid, sgn, nm))
+                        try:
+                            r = fn()
+                        except (ValueError, OverflowError) as ex:
+                            ctx.exc(ex); continue
+                        except Exception as ex:  # noqa: BLE001
+                            ctx.exc(ex); V(f"duration-{nm}-raised:{exc_key(ex)}", f"{nm} {dn} ns past the end of the instant range raised {ex!r} (ValueError/OverflowError expected)", c5, repr(ex)); continue
+                        V("duration-out-of-range-returned", f"Instant({nb}) at offset {oe} s {nm} {dn} ns: the instant would be {nb + dn}, outside [{IMIN}, {IMAX}], but a value was returned instead of raising", c5, None, nb + dn)
         # difference regardless of offsets and calendars
         m = rng.randint(IMIN + 2 * DAY, IMAX - 2 * DAY); oc = rng.choice(cals); olo, ohi = gen.cal_range(oc.id)
         o3 = Offset.from_seconds(rng.choice(offs))
@@ -233,15 +261,29 @@ def run(ctx, shard):
             fz = odt.in_fixed_zone()
             if ns_of(fz.to_instant()) != n or fz.offset != o or fz.calendar is not cal:
                 V("odt.in_fixed_zone", "in_fixed_zone changed instant/offset/calendar", c4)
-            dn = rng.choice([0, 1, -1, rng.randint(-10**16, 10**16), rng.randint(-10**12, 10**12)]); e_ns = n + dn
-            if IMIN + 2 * DAY <= e_ns <= IMAX - 2 * DAY and lo < e_ns // DAY - 1 and e_ns // DAY + 1 < hi:
-                try:
-                    r = zdt + Duration.from_nanoseconds(dn)
-                except Exception as ex:  # noqa: BLE001
-                    ctx.exc(ex); V(f"zoned-add-raised:{exc_key(ex)}", f"ZonedDateTime + {dn} ns raised {ex!r}", c4, repr(ex)); continue
+            dns = [rng.choice([0, 1, -1, rng.randint(-10**16, 10**16), rng.randint(-10**12, 10**12)])]
+            try:   # sums that land exactly on, just before and just after the neighbouring transitions of the zone
+                zi_ = z.get_zone_interval(i)
+                if zi_.has_end: dns += [ns_of(zi_.end) - n, ns_of(zi_.end) - n - 1, ns_of(zi_.end) - n + 1]
+                if zi_.has_start: dns += [ns_of(zi_.start) - n, ns_of(zi_.start) - n - 1]
+            except Exception as ex:  # noqa: BLE001
+                ctx.exc(ex)
+            for dn in dns:
+                e_ns = n + dn
+                if not (IMIN + 2 * DAY <= e_ns <= IMAX - 2 * DAY and lo < e_ns // DAY - 1 and e_ns // DAY + 1 < hi and abs(dn) < 2**62): continue
                 exp_off = z.get_utc_offset(ins(e_ns))
-                if ns_of(r.to_instant()) != e_ns or r.calendar is not cal or r.zone is not z or r.offset != exp_off:
-                    V("zoned-add-duration", f"ZonedDateTime({z.id}) + {dn} ns: instant {ns_of(r.to_instant())} (exp {e_ns}), calendar {r.calendar.id}, offset {r.offset.seconds} (zone says {exp_off.seconds})", dict(c4, dur=dn))
+                zops = [("+", lambda: zdt + Duration.from_nanoseconds(dn))]      # this port's ZonedDateTime has only `+`; the others are used when a tree has them
+                if hasattr(ZonedDateTime, "__sub__"): zops.append(("-", lambda: zdt - Duration.from_nanoseconds(-dn)))
+                if hasattr(ZonedDateTime, "plus"): zops.append(("plus", lambda: zdt.plus(Duration.from_nanoseconds(dn))))
+                if hasattr(ZonedDateTime, "plus_nanoseconds"): zops.append(("plus_nanoseconds", lambda: zdt.plus_nanoseconds(dn)))
+                for nm, fn in zops:
+                    ctx.ev(); ctx.count("zoned"); ctx.key(("zoned-add", cid, nm, dn in dns[1:], (dn > 0) - (dn < 0)))
+                    try:
+                        r = fn()
+                    except Exception as ex:  # noqa: BLE001
+                        ctx.exc(ex); V(f"zoned-add-raised:{exc_key(ex)}", f"ZonedDateTime {nm} {dn} ns raised {ex!r}", c4, repr(ex)); continue
+                    if ns_of(r.to_instant()) != e_ns or r.calendar is not cal or r.zone is not z or r.offset != exp_off or local_of(r.local_date_time) != e_ns + exp_off.seconds * 10**9:
+                        V("zoned-add-duration", f"ZonedDateTime({z.id}) {nm} {dn} ns: instant {ns_of(r.to_instant())} (exp {e_ns}), calendar {r.calendar.id}, offset {r.offset.seconds} (zone says {exp_off.seconds})", dict(c4, dur=dn))
         # ZonedClock over an auto-advancing clock: whatever it returns must be self-consistent (offset = zone offset at its own instant)
         if it % 5 == 0:
             from pyoda_time import ZonedClock
